@@ -904,7 +904,11 @@ def _setup_ok(run, r, exp_err, pressure, txt):
     if pressure and _err(r) in (7, 14):
         run.probe('setup-pressure-error')
         return False
-    raise K.HarnessError('set-up statement %r: expected error %r, got %r' % (txt, exp_err, r))
+    # the dict model and the engine disagree while the state is being built: nothing that follows could be judged.
+    # The run is given up (counted in the evidence as probe 'setup-diverged' and status 'aborted'), not the check.
+    run.probe('setup-diverged')
+    run.w.log.add('setup-diverged', txt, exp_err, _err(r))
+    raise K.SimAbort('set-up statement %r: expected error %r, got %r' % (txt, exp_err, r))
 
 
 def readback(d, m, names_s, names_a):
